@@ -174,6 +174,13 @@ def main(P, tier, replay=None):
     make_log = ""
     exes = drv = None
     with build.lock():
+        # tie T1, step 1: re-translate the modelled functions from /repo (also makes sure every generated file _CoqProject lists exists)
+        report = None
+        try:
+            report = build.gen_models()
+            ctx["gen_report"] = {f: [list(x) for x in rep if x[1] != "translated"] for f, rep in report.items()}
+        except build.BuildError as e:
+            ctx["open_obligations"].append({"kind": "translation", "what": e.what, "log": e.log[-3000:]})
         try:
             if P.pre_make:
                 P.pre_make(ctx)
@@ -182,25 +189,17 @@ def main(P, tier, replay=None):
         except build.BuildError as e:
             proof_ok = False
             ctx["open_obligations"].append({"kind": "proof", "what": e.what, "log": e.log[-3000:]})
-        # tie T1: re-translate the modelled functions from /repo and re-check "translated = model" for the ones in scope
+        # tie T1, step 2: re-check "translated = model" for the functions this property's theorems are about
         tie1 = {}
-        if P.gen_scope:
-            try:
-                report = build.gen_models()
-                status = {d: (st, det) for rep in report.values() for (f, st, det) in rep for d in [f]}
-                tie1 = build.gen_eq(P.gen_scope)
-                for n, err in tie1.items():
-                    if err is not None:
-                        ctx["open_obligations"].append({"kind": "translation", "what": "GenEq/%s.v: the definition regenerated from /repo's source is no longer shown equal to the model definition the theorems are about" % n, "log": err})
-                ctx["gen_report"] = {f: [list(x) for x in rep if x[1] != "translated"] for f, rep in report.items()}
-            except build.BuildError as e:
-                ctx["open_obligations"].append({"kind": "translation", "what": e.what, "log": e.log[-3000:]})
+        if P.gen_scope and report is not None:
+            tie1 = build.gen_eq(P.gen_scope)
+            for n, err in tie1.items():
+                if err is not None:
+                    ctx["open_obligations"].append({"kind": "translation", "what": "GenEq/%s.v: the definition regenerated from /repo's source is no longer shown equal to the model definition the theorems are about" % n, "log": err})
         ctx["tie1"] = tie1
         # search support: literals the current source adds to the pinned one become boundary values of the generators
         try:
             from . import dictionary, fam_api, fam_rf, fam_adapters, fam_aadapters
-            if not P.gen_scope:
-                build.gen_models()
             nv = dictionary.novel()
             fam_api.NOVEL[:] = nv; fam_rf.NOVEL[:] = nv; fam_adapters.NOVEL[:] = nv; fam_aadapters.NOVEL[:] = nv
             ctx["novel_literals"] = nv
